@@ -2,8 +2,12 @@
 from . import families as F
 from .simprops import generic_run, sizes, sim_replay
 from .p_queue import run_queue_correspondence
+from .p_session import run_session_correspondence
+def both(ctx):
+    run_queue_correspondence(ctx)
+    run_session_correspondence(ctx)
 LABELS = {"C03", "PANIC"}
 def run(ctx):
-    generic_run(ctx, LABELS, extra=run_queue_correspondence, plan=[("c01", lambda: F.fam_c01(ctx.rng, sizes(ctx, 300, 3000), tag="c03")), ("death2", lambda: F.fam_death(ctx.rng, sizes(ctx, 80, 600)))])
+    generic_run(ctx, LABELS, extra=both, plan=[("c01", lambda: F.fam_c01(ctx.rng, sizes(ctx, 300, 3000), tag="c03")), ("death2", lambda: F.fam_death(ctx.rng, sizes(ctx, 80, 600)))])
 def replay(ctx, path):
     return sim_replay(ctx, path, LABELS)
